@@ -114,9 +114,27 @@ func (o c13Obs) String() string {
 	return fmt.Sprintf("OUT %q trace=%s", o.out, o.trace)
 }
 
+// c13Self is a template that renders itself as a partial (to depth 2): with
+// the cache on, the inner Render is served the very same *Template that is
+// executing, so executions of one template overlap.
+const c13Self = `[<%= d %>:<%= who %><%= if (d > 0) { %><%= partial("self", {d: d - 1, who: "inner"}) %><% } %>:<%= who %>:<%= ci %>]`
+
+// c13SelfText is what the "self" partial resolves to: the text being executed.
+var c13SelfText = c13Self
+
 func c13Exec(b *core.B, how string, variant int, f func(ctx *plush.Context) (string, error)) (c13Obs, bool) {
 	env := &progEnv{}
 	ctx := progCtxV(env, variant)
+	ctx.Set("d", 2)
+	ctx.Set("who", "outer")
+	if def, ok := ctx.Value("partialFeeder").(func(string) (string, error)); ok {
+		ctx.Set("partialFeeder", func(n string) (string, error) {
+			if n == "self" {
+				return c13SelfText, nil
+			}
+			return def(n)
+		})
+	}
 	var out string
 	var err error
 	pan := core.Guard(func() { out, err = f(ctx) })
@@ -147,6 +165,11 @@ func c13Run(b *core.B) {
 		for j := range progs {
 			progs[j] = genProgram(r, 2, func(g *pGen) { g.hashBias = true; g.partials = true })
 			texts[j] = progs[j].canonical()
+			if j == 0 && i%3 == 0 {
+				// re-entrant execution of one template
+				progs[j] = &pProg{features: map[string]bool{"self-recursive-partial": true, "partial": true}}
+				texts[j] = c13Self
+			}
 		}
 		if !b.Begin(strings.Join(texts, "\n=====\n")) {
 			continue
@@ -208,6 +231,7 @@ func c13Run(b *core.B) {
 			if t == nil {
 				continue
 			}
+			c13SelfText = texts[j]
 			prog := plush.VerifProgram(t)
 			before := programHash(prog)
 			how := pick(r, []string{"exec", "exec", "clone-exec", "render", "parse-exec"})
@@ -245,6 +269,7 @@ func c13Run(b *core.B) {
 			nonce++
 			variant = r.Intn(2)
 			tn := texts[j] + fmt.Sprintf("<%%# nonce %d-%d-%d %%>", b.Batch, i, nonce)
+			c13SelfText = tn
 			o, ok := c13Exec(b, "cold", variant, func(ctx *plush.Context) (string, error) { return plush.Render(tn, ctx) })
 			good = judge(j, "cache-on/cold-render", o, ok) && good
 			var cached *plush.Template
@@ -277,6 +302,7 @@ func c13Run(b *core.B) {
 		plush.CacheEnabled = false
 		// --- repeats: Go map order nondeterminism is probabilistic
 		for j := 0; j < m && good; j++ {
+			c13SelfText = texts[j]
 			for rep := 0; rep < reps && good; rep++ {
 				variant = rep % 2
 				o, ok := c13Exec(b, "repeat", variant, func(ctx *plush.Context) (string, error) { return plush.Render(texts[j], ctx) })
